@@ -46,6 +46,28 @@ def target_toy(adapt):
     ]
 
 
+def target_toy_bounded(adapt):
+    """a sliding window wide enough to leave the support of its target (a move whose proposed
+    density is not finite is rejected outright)"""
+    return [
+        {"id": "joint", "type": "JointDistributionModel", "distributions": [
+            {"id": "dx", "type": "Distribution", "distribution": "torch.distributions.Normal",
+             "x": P("x", [0.4]), "parameters": {"loc": 0.3, "scale": 1.2}},
+            {"id": "dy", "type": "Distribution", "distribution": "torch.distributions.Gamma",
+             "x": P("y", [0.8]), "parameters": {"concentration": 2.0, "rate": 1.5}},
+        ]},
+        {"id": "mcmc", "type": "MCMC", "joint": "joint", "iterations": 3, "every": 0,
+         "checkpoint_frequency": 1000000,
+         "operators": [
+             {"id": "op.y", "type": "SlidingWindowOperator", "parameters": ["y"], "width": 4.0,
+              "weight": 1.0, "disable_adaptation": not adapt},
+             {"id": "op.x", "type": "SlidingWindowOperator", "parameters": ["x"], "width": 0.9,
+              "weight": 1.0, "disable_adaptation": not adapt},
+         ],
+         "loggers": [{"id": "logger", "type": "Logger", "parameters": ["joint", "x", "y"], "every": 1}]},
+    ]
+
+
 def target_hky(adapt):
     labels = ["t0", "t1", "t2"]
     seqs = ["ACGTACGGTA", "ACGAACGTTA", "TCGTACATTC"]
@@ -127,10 +149,35 @@ def target_hmc_toy(adapt, dense=False):
     ]
 
 
+def target_hmc_block(adapt):
+    """HMC on a block of the parameters, a second operator on a parameter the block's gradient
+    depends on"""
+    return [
+        {"id": "joint", "type": "JointDistributionModel", "distributions": [
+            {"id": "dx", "type": "Distribution", "distribution": "torch.distributions.Normal",
+             "x": P("x", [0.4, -0.7]), "parameters": {"loc": P("mu", [0.3]), "scale": [0.8, 0.8]}},
+            {"id": "dmu", "type": "Distribution", "distribution": "torch.distributions.Normal",
+             "x": "mu", "parameters": {"loc": 0.0, "scale": 2.0}},
+        ]},
+        {"id": "mcmc", "type": "MCMC", "joint": "joint", "iterations": 3, "every": 0,
+         "checkpoint_frequency": 1000000,
+         "operators": [
+             {"id": "op.hmc", "type": "HMCOperator", "joint": "joint", "parameters": ["x"],
+              "integrator": {"id": "leapfrog", "type": "LeapfrogIntegrator", "steps": 3, "step_size": 0.2},
+              "mass_matrix": P("mass", [1.5, 0.8]), "adaptors": [], "disable_adaptation": not adapt},
+             {"id": "op.mu", "type": "SlidingWindowOperator", "parameters": ["mu"], "width": 1.5,
+              "weight": 1.0, "disable_adaptation": not adapt},
+         ],
+         "loggers": [{"id": "logger", "type": "Logger", "parameters": ["joint", "x", "mu"], "every": 1}]},
+    ]
+
+
 TARGETS = {
+    "hmc_block": lambda adapt: target_hmc_block(adapt),
     "hmc_toy_diag": lambda adapt: target_hmc_toy(adapt, False),
     "hmc_toy_dense": lambda adapt: target_hmc_toy(adapt, True),
     "toy": lambda adapt: target_toy(adapt),
+    "toy_bounded": lambda adapt: target_toy_bounded(adapt),
     "hky": lambda adapt: target_hky(adapt),
     "skygrid_block": lambda adapt: target_fixture("strict_hky_w4_skygrid", adapt,
                                                   keep_ops=("coalescent.theta.log", "gmrf.precision", "tree.ratios")),
@@ -170,6 +217,42 @@ class Recorder:
     def snapshot(self):
         return {k: self.dic[k].tensor.detach().clone() for k in self.base}
 
+    def reversal(self, op_id, integrator, q0, p0, p1, inverse_mass_matrix):
+        """the leapfrog map of the current target is an involution after a momentum flip: an
+        independent integrator on a graph freshly built at the end point, started with -p1, must
+        come back to (q0, -p0).  Returns None (consistent / not judged) or a text."""
+        torch = self.torch
+        try:
+            if not bool(torch.isfinite(p1).all()):
+                return None
+            fresh = tt.load(gs.with_values(self.spec, self.snapshot()))
+            fop = fresh[op_id]
+            integ = fop._integrator
+            integ.step_size = integrator.step_size
+            integ.steps = integrator.steps
+            back = integ(fop._hamiltonian.joint, fop.parameters, -p1.detach().clone(), inverse_mass_matrix)
+            qb = torch.cat([p_.tensor.detach().clone() for p_ in fop.parameters], -1)
+            scale = max(1.0, float(q0.abs().max()), float(p0.abs().max()))
+            dq, dp = float((qb - q0).abs().max()), float((back + p0).abs().max())
+            if not (dq <= 1e-6 * scale and dp <= 1e-6 * scale):
+                from mc.props.c12 import degenerate_spectrum
+
+                start = tt.load(gs.with_values(self.spec, self.cur["before"]))
+                if any(type(o).__name__ == "TreeLikelihoodModel" and degenerate_spectrum(o)
+                       for o in start.values()):
+                    # the trajectory starts where the symmetrised rate matrix has a repeated eigenvalue: the
+                    # eigh backward pass returns garbage there (open C12 finding), the "gradient" is not a function
+                    return ("DEGENERATE an independent leapfrog from the proposal with the momentum negated does "
+                            f"not return to the start: |dq| = {dq:.3e}, |dp| = {dp:.3e}; the trajectory starts at a "
+                            "point with a repeated eigenvalue of the symmetrised rate matrix, where the gradient "
+                            "of the tree likelihood is not well defined (see the C12 finding)")
+                return (f"an independent leapfrog from the proposal with the momentum negated does not return to "
+                        f"the start: |dq| = {dq:.3e}, |dp| = {dp:.3e} (the proposal is not the leapfrog map of "
+                        f"the current target)")
+        except Exception:
+            return None
+        return None
+
     def install(self):
         mcmc = self.mcmc
         rec = self
@@ -177,7 +260,14 @@ class Recorder:
 
         class JointProxy:
             def __call__(self_inner, *a, **k):
-                v = real_joint(*a, **k)
+                try:
+                    v = real_joint(*a, **k)
+                except ValueError as e:
+                    if "within the support" in str(e) and rec.cur is not None and rec.cur.get("stepped") \
+                            and "proposed_lp" not in rec.cur:
+                        # the target refuses the proposal: its density there is zero
+                        rec.cur["proposed_lp"] = rec.torch.tensor(-math.inf)
+                    raise
                 rec.joint_calls.append((len(rec.script.points), v.detach().clone(), rec.snapshot()))
                 if rec.cur is not None and "proposed_lp" not in rec.cur and rec.cur.get("stepped"):
                     rec.cur["proposed_lp"] = v.detach().clone()
@@ -199,8 +289,11 @@ class Recorder:
             class IntegratorProxy:
                 def __call__(self_inner, model, parameters, momentum, inverse_mass_matrix):
                     info = {"p0": momentum.detach().clone(), "mass": op.mass_matrix.detach().clone()}
+                    q0 = rec.torch.cat([p_.tensor.detach().clone() for p_ in parameters], -1)
                     p1 = real(model, parameters, momentum, inverse_mass_matrix)
                     info["p1"] = p1.detach().clone()
+                    info["reversal"] = rec.reversal(op.id, real, q0, info["p0"], info["p1"],
+                                                    inverse_mass_matrix.detach().clone())
                     if rec.cur is not None:
                         rec.cur["hmc"] = info
                     return p1
@@ -262,6 +355,11 @@ def from_scratch(spec, values, target_id):
             with torch.no_grad():
                 v = fresh[target_id]()
             SCRATCH[key] = float(v.sum())
+        except ValueError as e:
+            if "within the support" in str(e):
+                SCRATCH[key] = -math.inf  # the density of a point outside the support is zero
+            else:
+                SCRATCH[key] = ("raises", f"{type(e).__name__}: {str(e)[:100]}")
         except Exception as e:
             SCRATCH[key] = ("raises", f"{type(e).__name__}: {str(e)[:100]}")
     return SCRATCH[key]
@@ -398,6 +496,10 @@ def check_execution(tname, spec, script, horizon, adapt):
                 p0, p1 = r["hmc"]["p0"].numpy(), r["hmc"]["p1"].numpy()
                 Minv = np.diag(1.0 / M) if M.ndim == 1 else np.linalg.inv(M)
                 href = 0.5 * p0 @ Minv @ p0 - 0.5 * p1 @ Minv @ p1
+                if r["hmc"].get("reversal"):
+                    txt = r["hmc"]["reversal"]
+                    bad.append(("hmc_not_reversible_degenerate" if txt.startswith("DEGENERATE") else
+                                "hmc_not_reversible", f"{where}: {txt}"))
                 if not _close(h, float(href), 1e-9):
                     bad.append(("hastings_ratio", f"{where}: operator returned {h!r} but K(p0) - K(p1) under the "
                                                   f"current mass matrix {M.tolist()} is {float(href)!r}"))
@@ -454,6 +556,18 @@ def check_execution(tname, spec, script, horizon, adapt):
         if "tuning_after" in r and "acceptance_prob" in r:
             b0, b1 = boldness(otype, r["tuning_before"]), boldness(otype, r["tuning_after"])
             ap, tg = r["acceptance_prob"], r["target"]
+            # the acceptance probability of THIS move, from the from-scratch densities
+            ap_true = None
+            if math.isinf(h):
+                ap_true = 0.0
+            elif not isinstance(lp_prop, tuple) and not isinstance(lp_cur, tuple):
+                ap_true = 0.0 if (math.isnan(lp_prop) or math.isinf(lp_prop)) else \
+                    math.exp(min(0.0, (lp_prop - lp_cur) + h))
+            if ap_true is not None:
+                if adapt and abs(float(ap) - ap_true) > 1e-9:
+                    bad.append(("tuning_acceptance", f"{where} ({otype}): the tuner was given acceptance probability "
+                                                     f"{float(ap)!r}, this move has {ap_true!r}"))
+                ap = ap_true
             if not adapt:
                 if b0 != b1:
                     bad.append(("tuning_disabled", f"{where}: adaptation disabled but tuning changed {r['tuning_before']} -> {r['tuning_after']}"))
@@ -583,7 +697,7 @@ def run(run):
     items = []
     for tname in TARGETS:
         for adapt in (True, False):
-            if tname in ("toy", "hky"):
+            if tname in ("toy", "hky", "toy_bounded", "hmc_block"):
                 bound, horizon = (2, 3) if quick else (3, 4)
             elif tname.startswith("hmc_toy"):
                 bound, horizon = (1, 7) if quick else (2, 11)
